@@ -8,6 +8,8 @@ CONSTANTS
   FixUnpad = TRUE
   FixProto = TRUE
   FixShardLens = TRUE
+  MaxSession = 3
+  RecordOnlyAccepted = TRUE
 INIT MBTInit
 NEXT MBTNext
 CHECK_DEADLOCK FALSE
